@@ -696,6 +696,7 @@ func runC14(env *Env) {
 	if nrefresh > 0 {
 		jobs = append(jobs, func(rng *Rng) { c14json(env, &out, rng) }, func(rng *Rng) { c14json(env, &out, rng) })
 		jobs = append(jobs, func(rng *Rng) { c14burst(env, &out) }, func(rng *Rng) { c14burst(env, &out) })
+		jobs = append(jobs, func(rng *Rng) { c14tcpSlow(env, &out, rng) }, func(rng *Rng) { c14tcpSlow(env, &out, rng) })
 	}
 	sem := make(chan struct{}, 8)
 	for i, j := range jobs {
